@@ -534,7 +534,7 @@ func (c *tchain) judge(t fataler, bs backends, q query, matcherLeg bool) (verdic
 	cancel()
 	if err != nil {
 		if timedOut {
-			return v, fmt.Sprintf("Filter.Logs did not return within 120 s (%v)", err)
+			c.hung(q, fmt.Sprintf("Filter.Logs did not return within 120 s (%v)", err))
 		}
 		return v, fmt.Sprintf("Filter.Logs failed: %v", err)
 	}
@@ -685,6 +685,17 @@ func (c *tchain) judge(t fataler, bs backends, q query, matcherLeg bool) (verdic
 	return v, ""
 }
 
+// hung reports a query that never returned and ends the process at once: every
+// further query (and every shrink attempt) would wait another 120 s and turn a
+// detected violation into an exhausted time budget. The case is saved first.
+func (c *tchain) hung(q query, msg string) {
+	if c.synthetic != nil {
+		ev.SaveCase("hung", toCase(c.synthetic, q))
+	}
+	fmt.Printf("--- FAIL: C16 query hung: %s\nquery: %v\nchain head %d (%d blocks with logs)\n", msg, q, c.head, len(c.withLogs))
+	os.Exit(1)
+}
+
 // matcherLeg is oracle (c): a bare Matcher session over [begin, end] (all
 // inside the index) reports, in ascending order and without repeats, a set of
 // blocks of the range that contains every block holding a matching log.
@@ -724,8 +735,7 @@ loop:
 			}
 			got = append(got, n)
 		case <-ctx.Done():
-			sess.Close()
-			return "matcher session did not finish within 120 s"
+			c.hung(q, "matcher session did not finish within 120 s")
 		}
 	}
 	sess.Close()
